@@ -350,7 +350,8 @@ PROPS["C11"] = dict(
     gens=[("enum", gen.gen_C11, 1.0), ("evplus-enum", gen.gen_C11_ev, 0.3)], quick=50, thorough=500,
     level_text="Model = the specification: the non-default entries of the evaluation table that match the mask, "
                "in lexicographic order; cardinality = their number; node/edge counts = distinct sub-diagrams of "
-               "the canonical diagram. Tie: full visited sequences of dd_edge::iterator with and without masks "
+               "the canonical diagram; cardinality obeys inclusion-exclusion, difference and complement laws "
+               "of the set algebra (proved). Tie: full visited sequences of dd_edge::iterator with and without masks "
                "(fixed / free / unchanged), CARDINALITY in long/double/mpz, getNodeCount/getEdgeCount.",
     level_note=_MODELLED + "The iterator's cursor state machine is not mirrored (sequence disagreements expose "
                "resumption bugs); long/double overflow of cardinalities not modelled.")
